@@ -3,6 +3,7 @@ package rules
 import (
 	"fmt"
 	"go/token"
+	"strings"
 
 	"argverif/internal/core"
 
@@ -20,6 +21,59 @@ import (
 //	                                     and does not modify the map it is handed
 func runGraphHelpers(c *Ctx) {
 	p := c.P
+	// a list that a graph function builds by appending and hands back starts empty: `make([]Vertex, 1, n)` would put a
+	// nil vertex in front of what Vertices or KahnSort report
+	for _, f := range p.GraphFuncs() {
+		nList := 0
+		core.Instrs(f, func(in ssa.Instruction) {
+			mk, ok := in.(*ssa.MakeSlice)
+			if !ok {
+				return
+			}
+			appended := false
+			for _, ref := range *mk.Referrers() {
+				if cl, isC := ref.(*ssa.Call); isC && core.CalleeName(cl.Common()) == "builtin.append" && len(cl.Common().Args) > 0 && cl.Common().Args[0] == ssa.Value(mk) {
+					appended = true
+				}
+				// stored in a variable that is appended onto later
+				if st, isSt := ref.(*ssa.Store); isSt && st.Val == ssa.Value(mk) {
+					if al, isAl := st.Addr.(*ssa.Alloc); isAl {
+						for _, r2 := range *al.Referrers() {
+							if ld, isLd := r2.(*ssa.UnOp); isLd {
+								for _, r3 := range *ld.Referrers() {
+									if cl, isC := r3.(*ssa.Call); isC && core.CalleeName(cl.Common()) == "builtin.append" && cl.Common().Args[0] == ssa.Value(ld) {
+										appended = true
+									}
+								}
+							}
+						}
+					}
+				}
+			}
+			// through a phi (loop-carried list)
+			for _, ref := range *mk.Referrers() {
+				if ph, isPhi := ref.(*ssa.Phi); isPhi {
+					for _, r2 := range *ph.Referrers() {
+						if cl, isC := r2.(*ssa.Call); isC && core.CalleeName(cl.Common()) == "builtin.append" && cl.Common().Args[0] == ssa.Value(ph) {
+							appended = true
+						}
+					}
+				}
+			}
+			if !appended {
+				return
+			}
+			k, isK := core.ConstInt(mk.Len)
+			rule := "MIRROR-VERT"
+			if strings.Contains(core.FuncName(f), "Kahn") {
+				rule = "KAHN"
+			}
+			c.R.Func(core.FuncName(f))
+			nList++
+			c.R.Add(rule, fmt.Sprintf("appended-list-starts-empty|%s#%d", core.FuncName(f), nList), core.FuncName(f), p.InstrPos(mk), isK && k == 0,
+				"a list built by appending starts empty (nothing but what is appended is reported)", ternary(isK && k == 0, "length 0", "made with length "+core.Path(mk.Len)))
+		})
+	}
 	hc := p.HashcodeFn()
 	if hc == nil {
 		c.R.Undecided("MIRROR-KEY", "hashcode", "(graph)", "-", "the vertex hashing function was not found")
